@@ -534,3 +534,66 @@ _wire_sort()
 from contracts.alignment import CellsSetStub as _CSS, VerticesSetStub as _VSS  # noqa: E402
 
 CONTRACTS = CONTRACTS + [GetDataStub, _VSS, _CSS, DrillholeCellsSetStub, SortDepths]
+
+
+class RefusedEditsNative(Contract):
+    """Bounded stand-in: the positions a hole hands out belong to the collar and survey it reports --
+    also after an assignment of a new collar or survey that the file refused (workspace opened
+    read-only, or closed) and after the valid assignment that follows."""
+    target = "geoh5py/objects/drillhole.py::Drillhole.desurvey"
+    variant = "refused-edits-native"
+    symbolic = False
+    has_native = True
+    props = ("C18",)
+    bounded_scope = "one stored hole (collar, 3-station survey), positions read first; a new collar / a new survey assigned in {a read-only session, after the workspace was closed, a writable session}; desurvey at 4 depths compared with the reference path of the collar and survey the hole reports afterwards (exhaustive: 2 attributes x 3 sessions)"
+
+    def native_cases(self, tier, rng):
+        for attr in ("collar", "surveys"):
+            for session in ("read-only", "closed", "writable"):
+                yield {"attr": attr, "session": session}
+
+    def native_check(self, case):
+        import os
+        import shutil
+        import tempfile
+
+        from geoh5py.objects import Drillhole
+        from geoh5py.workspace import Workspace
+
+        d = tempfile.mkdtemp()
+        try:
+            path = os.path.join(d, "h.geoh5")
+            with Workspace.create(path) as ws:
+                Drillhole.create(ws, name="h", collar=[10.0, 20.0, 30.0], surveys=np.c_[np.r_[0.0, 50.0, 100.0], np.r_[0.0, 45.0, 90.0], np.r_[-90.0, -70.0, -50.0]])
+            ws = Workspace(path, mode="r" if case["session"] == "read-only" else "r+")
+            try:
+                hole = ws.get_entity("h")[0]
+                depths = np.array([0.0, 25.0, 75.0, 140.0])
+                hole.desurvey(depths)  # the positions have been asked for before
+                if case["session"] == "closed":
+                    ws.close()
+                new = [110.0, 220.0, 330.0] if case["attr"] == "collar" else np.c_[np.r_[0.0, 60.0, 120.0], np.r_[180.0, 200.0, 220.0], np.r_[-60.0, -60.0, -45.0]]
+                try:
+                    setattr(hole, case["attr"], new)
+                    refused = False
+                except Exception:
+                    refused = True
+                if case["session"] == "closed":
+                    ws.open()
+                    hole = ws.get_entity("h")[0] if hole.workspace is not ws else hole
+                collar = np.array([float(hole.collar[k]) for k in ("x", "y", "z")])
+                sv = np.asarray(hole.surveys)
+                surveys = np.c_[[np.asarray(sv[k], dtype=float) for k in ("Depth", "Azimuth", "Dip")]].T if sv.dtype.names else sv.astype(float)
+                want = ref_path(collar, surveys, depths)
+                got = np.asarray(hole.desurvey(depths), dtype=float)
+                if got.shape != want.shape or not np.allclose(got, want, atol=1e-3):
+                    return (f"after a {'refused' if refused else 'valid'} assignment of {case['attr']} ({case['session']} session) the hole reports collar {collar.tolist()} "
+                            f"but places depth 0 at {got[0].tolist()} (positions are those of the former {case['attr']}) ({case})")
+            finally:
+                ws.close()
+        finally:
+            shutil.rmtree(d, ignore_errors=True)
+        return None
+
+
+CONTRACTS = CONTRACTS + [RefusedEditsNative]
